@@ -5,7 +5,6 @@ import (
 	"os"
 	"regexp"
 	"strings"
-	"time"
 
 	"mvdan.cc/sh/v3/shell"
 
@@ -65,7 +64,7 @@ var c25FieldsOK = regexp.MustCompile(`^0:[0-9]+:<`)
 
 func c25(c *vc.Ctx) {
 	maxLen := vc.Pick(c, 4, 5)
-	c.Rule = fmt.Sprintf("all strings of <=%d items over %q x env in {nil func with V absent from the process environment, V=\"\" (must mean unset), V=\"x y\"} x {shell.Expand, shell.Fields}; HOME=%s on both sides. Expand is compared with bash's `IFS= read -r -d '' R <<__E__` of the string (the newline the here-document appends is accounted for); Fields with the positional parameters after `set -f; set -- <s>` (for strings containing a newline: after `A=(<s>)`, where a newline is a word separator as in Parser.WordsSeq). error <=> bash error. Excluded and counted: skipped_trailing_backslash (a here-document body cannot end in an unescaped backslash: bash 5.2 yields a stray 0xFF byte at EOF; for Fields only when the string also has a newline); cmdsubst_refused (the string contains `$(` and shell.Expand/Fields returned an error: command substitution is unsupported by design, so any error is accepted; when it returns a result instead, that result is compared with bash). `$$` is normalised to the text PID on both sides. distinct = distinct (function, result or error kind)", maxLen, c25Alphabet, c25Home)
+	c.Rule = fmt.Sprintf("all strings of <=%d items over %q x env in {nil func with V absent from the process environment (strings of fewer than %d items only), V=\"\" (must mean unset), V=\"x y\"} x {shell.Expand, shell.Fields}; HOME=%s on both sides. Expand is compared with bash's `IFS= read -r -d '' R <<__E__` of the string (the newline the here-document appends is accounted for); Fields with the positional parameters after `set -f; set -- <s>` (for strings containing a newline: after `A=(<s>)`, where a newline is a word separator as in Parser.WordsSeq). error <=> bash error. Excluded and counted: skipped_trailing_backslash (a here-document body cannot end in an unescaped backslash: bash 5.2 yields a stray 0xFF byte at EOF; for Fields only when the string also has a newline); cmdsubst_refused (the string contains `$(` and shell.Expand/Fields returned an error: command substitution is unsupported by design, so any error is accepted; when it returns a result instead, that result is compared with bash). `$$` is normalised to the text PID on both sides. distinct = distinct (function, result or error kind)", maxLen, c25Alphabet, maxLen, c25Home)
 	c.Assumptions = []string{
 		"bash 5.2.15 (LC_ALL=C.utf8) is the oracle; its stderr is ignored and an error is recognised by the result variable not being produced",
 		"for env==nil the checker's own process environment is prepared (V unset, HOME=" + c25Home + ", $=PID)",
@@ -87,16 +86,19 @@ func c25(c *vc.Ctx) {
 HOME=` + c25Home + `; set -f; unset a d
 `
 	complete := vc.RunBatch(c, 2000, func(emit func(c25Case)) {
-		enum.Strings(c25Alphabet, maxLen, func(s string) {
-			for env := 0; env < 3; env++ {
+		enum.Seqs(c25Alphabet, maxLen, func(seq []string) {
+			s := strings.Join(seq, "")
+			env0 := 0
+			if len(seq) >= maxLen {
+				env0 = 1 // the nil-function route only differs in the lookup; covered for the shorter strings
+			}
+			for env := env0; env < 3; env++ {
 				emit(c25Case{"Expand", s, env})
 				emit(c25Case{"Fields", s, env})
 			}
 		})
 	}, func(batch []c25Case) []*vc.Fail {
 		fails := make([]*vc.Fail, len(batch))
-		tb := time.Now()
-		defer func() { c.Count("ms_total", int(time.Since(tb).Milliseconds())) }()
 		type pend struct {
 			idx   int
 			shErr error
@@ -162,9 +164,7 @@ HOME=` + c25Home + `; set -f; unset a d
 			cases = append(cases, oracle.EvalCase{Code: code, Want: want})
 			pends = append(pends, pend{i, shErr, want})
 		}
-		t0 := time.Now()
 		diffs, err := oracle.BashEvalBatch(prelude, "unset V A", cases, tmp)
-		c.Count("ms_bash", int(time.Since(t0).Milliseconds()))
 		if err != nil {
 			panic(err)
 		}
